@@ -88,6 +88,19 @@ func newStoreEnv(t testing.TB, nss []*namespace.Namespace, seed int64, extra ...
 	return e
 }
 
+// envFor wraps an existing registry; the routers and handlers are built here,
+// the registry's lazily created singletons are first touched by the requests.
+func envFor(t testing.TB, reg *driver.RegistryDefault) *storeEnv {
+	ctx := context.Background()
+	e := &storeEnv{t: t, reg: reg, nids: map[string]uuid.UUID{}, sym: newSymtab(1)}
+	e.rr, e.wr = reg.ReadRouter(ctx), reg.WriteRouter(ctx)
+	e.rt = relationtuple.NewHandler(reg)
+	e.ch = check.NewHandler(reg)
+	e.eh = expand.NewHandler(reg)
+	e.nids["A"] = reg.Persister().NetworkID(ctx)
+	return e
+}
+
 func namespaceHandler(reg *driver.RegistryDefault) rts.NamespacesServiceServer {
 	return namespacehandler.New(reg)
 }
